@@ -413,7 +413,15 @@ impl CoreDocument {
     //
     // NOTE: this check cannot be relied upon if the document contains methods or services whose ids are
     // of the form <did different from this document's>#<fragment>.
-    if self.resolve_method(method.id(), None).is_some() || self.service().query(method.id()).is_some() {
+    //
+    // Relationship entries are compared by their raw identifiers as well: a reference that does not resolve to a
+    // method of this document is invisible to `resolve_method`, but it still occupies the identifier.
+    if self.resolve_method(method.id(), None).is_some()
+      || self.service().query(method.id()).is_some()
+      || self
+        .verification_relationships()
+        .any(|method_ref| method_ref.id() == method.id())
+    {
       return Err(Error::MethodInsertionError);
     }
     match scope {
